@@ -177,6 +177,7 @@ def gen_send(rng):
         op["enc"] = None
         if not op["chunked"] and rng.random() < 0.25:
             op["enc"] = [rng.choice([True, False, None]), rng.choice([True, False, None])]
+            op["enc_via"] = rng.choice(["original", "original", "flags"])
     elif kind == "cEcho":
         abs_pool = [L.VERIFICATION, L.CT]
     elif kind in ("cFind", "cGet", "cMove", "cCancelModel"):
@@ -259,7 +260,16 @@ def run_op(assoc, op):
             _config.STORE_SEND_CHUNKED_DATASET = False
             sds = L.store_dataset(op["cls"], op["ts"])
             if op.get("enc"):
-                sds.set_original_encoding(op["enc"][0], op["enc"][1])
+                if op.get("enc_via") == "flags" and None not in op["enc"]:
+                    # a data set built from scratch (never read from a file: original_encoding is (None, None)) whose
+                    # encoding the caller states through the Dataset attributes
+                    import warnings
+
+                    with warnings.catch_warnings():
+                        warnings.simplefilter("ignore")
+                        sds.is_implicit_VR, sds.is_little_endian = op["enc"][0], op["enc"][1]
+                else:
+                    sds.set_original_encoding(op["enc"][0], op["enc"][1])
             return assoc.send_c_store(sds)
         finally:
             _config.STORE_SEND_CHUNKED_DATASET = old
